@@ -6,6 +6,14 @@
 #define _GNU_SOURCE
 #include "cglue.h"
 
+#ifdef CELLO_NGC
+/* without a collector there is nothing for this engine to drive */
+static const OpInfo NOOPS_[] = { { "nop", 0 } };
+static void heap_gen_none(Plan* p, Rng* r) { (void)p; (void)r; }
+static void heap_exec_none(const Plan* p) { (void)p; }
+const Scenario scen_heap = { "heap", NOOPS_, 1, heap_gen_none, heap_exec_none, "C01" };
+#else
+
 enum { H_NEWNODE, H_NEWREF, H_NEWBOX, H_NEWCONT, H_LINK, H_UNLINK, H_SLOTSET, H_SLOTCLR,
        H_TLSSET, H_TLSREM, H_DEL, H_BURST, H_STOP, H_START, H_CHAIN, H_BADFREE, H_COPY, H_NOPS };
 static const OpInfo OPS[H_NOPS] = {
@@ -702,3 +710,4 @@ static void heap_generate(Plan* p, Rng* r) {
 static void heap_execute_entry(const Plan* p) { heap_execute(p); }
 
 const Scenario scen_heap = { "heap", OPS, H_NOPS, heap_generate, heap_execute_entry, "C01" };
+#endif /* CELLO_NGC */
